@@ -25,8 +25,12 @@
   marker is a `wake` of the sleeping iteration and the end of the step list.
 
   processing.process_resource_event / process_resource_causes:
+      patch = Patch(memory.remaining_patch, body=body)           -- the transformations carried over from a 422
       index_resource(...)                                        -- indexing
-      patch_initially_empty = not patch                          -- patch = memory.remaining_patch
+      patch_initially_empty = not patch                          -- false iff something was carried (whether or not it
+                                                                 -- still yields an operation: that is decided when
+                                                                 -- patching, on the freshest state — the interim
+                                                                 -- head-of-cycle check of 608a57d was taken back)
       process_watching_cause(...); process_spawning_cause(...)   -- raw-event handlers, daemons/timers
       (prematch / finalizer decisions may set changing_cause = None)
       consistency_is_required = changing_cause is not None
@@ -42,10 +46,18 @@
               and operator_paused is not None and operator_paused.is_on():       -- fix 3cc60e3
           consistency_is_achieved = False       -- paused: the streams are closed, the awaited version cannot
                                                 -- arrive, the timeout proves nothing; the event is dropped
-      if required and not achieved: return                       -- early: to PATCHing / the next event
+      if required and not achieved:                              -- early: to PATCHing / the next event
+          waiting_delays = []                                    -- fix 30557a0 + the rework of 608a57d:
+          if operator_paused is not None and operator_paused.is_on(): pass            -- paused: nothing is to be written
+          elif consistency_time is not None: waiting_delays = [max(0., consistency_time - loop.time())]
+          elif not patch_initially_empty: waiting_delays = [0.]  -- a carried patch that sends nothing: come back at once
+          return spawning_delays + waiting_delays, False         -- "come back when the waiting time is over"
       process_changing_cause(...)                                -- change-detecting handlers
-  then `application.apply` patches; the version of the last PATCH is returned to the worker
-  (suffixed `~which~never~arrives` when that PATCH released the object).
+  then `application.apply(delays=…)` patches; the version of the last PATCH is returned to the worker
+  (suffixed `~which~never~arrives` when that PATCH released the object). What `apply` does with a delay — no sleep
+  if the patch changed the object (its event comes), else an interruptible sleep and a touch (whose event comes) —
+  is not this model's (C03/C08): here the delay is an OUTPUT of the iteration (`Outcome.wait`), and the writes of
+  `apply` (the patch or the touch) come back as the observed `patched`/`tp`/`tret` of the iteration.
 
   aiotime.sleep(delay, wakeup): delay ≤ 0 → None at once; else wait_for(wakeup.wait(), delay):
   None on the time-out, the unslept remainder (not None) when the event was or became set first.
@@ -88,7 +100,8 @@ structure Iter where
   lag : Nat               -- lateness of a timed-out sleep (0 under virtual time)
   gone : Bool             -- the cause is GONE (a DELETED event)
   required : Bool         -- `changing_cause is not None` at the barrier
-  patchInit : Bool        -- `not patch` at the entry (`patch_initially_empty`)
+  carried : Bool := false     -- `memory.remaining_patch is not None` when the cycle begins: transformation functions of
+                              -- the handlers, carried over from a JSON-patch that was rejected with HTTP 422
   patchMid : Bool         -- `not patch` at the barrier (raw-event handlers may have filled it)
   patched : Option Ver    -- version returned by the processor (None: no PATCH, or it hit a 404)
   tp : Int               -- when the server applied that PATCH (meaningful when `patched` is some)
@@ -102,6 +115,11 @@ structure Iter where
                           -- return and the read). The toggle may have flipped any number of times before: before
                           -- the dequeue, during the raw-event handlers, during the sleep. Only this value is read.
   deriving DecidableEq, Repr
+
+/-- `patch_initially_empty`: `not patch` at the entry of `process_resource_causes`: whatever was carried over makes
+    the patch non-empty (a carried `Patch(fns=…)` is truthy for its functions alone; nothing else is in the patch
+    when the cycle begins). -/
+def Iter.patchInit (it : Iter) : Bool := !it.carried
 
 structure Slept where
   tEnd : Int
@@ -134,11 +152,13 @@ structure PS where
   low : List (Stage × Int)       -- low-level stages entered so far, in order, with their start times
   slept : Option Slept           -- the barrier sleep, if it was entered
   decided : Option Bool          -- final `consistency_is_achieved`, once the barrier stage has run
+  left : Int                     -- `loop.time()` when the consistency block was left
+  wait : Option Int              -- the waiting delay reported by the early return (fix 30557a0)
   entered : Option Int           -- `process_changing_cause` was entered (at this time)
   deriving DecidableEq, Repr
 
 def PS.start (it : Iter) : PS :=
-  { clock := it.now, low := [], slept := none, decided := none, entered := none }
+  { clock := it.now, low := [], slept := none, decided := none, left := it.now, wait := none, entered := none }
 
 /-- One stage, executed at the processor's current clock. Only the barrier reads `consistency_time`. -/
 def stepStage (deadline : Option Int) (it : Iter) (ps : PS) : Stage → PS
@@ -162,8 +182,17 @@ def stepStage (deadline : Option Int) (it : Iter) (ps : PS) : Stage → PS
     -- `if required and consistency_time is not None and operator_paused.is_on(): achieved = False` (fix 3cc60e3);
     -- `is not None`, not truthiness: a `consistency_time` of 0.0 counts; GONE or not; slept or not
     let frozen : Bool := it.required && deadline.isSome && it.paused
-    { ps with slept := slept, decided := some (ach1 && it.patchInit && !frozen),
-              clock := match slept with | some s => s.tEnd | none => ps.clock }
+    let achieved : Bool := ach1 && it.patchInit && !frozen
+    let clock' : Int := match slept with | some s => s.tEnd | none => ps.clock
+    -- the early return: nothing while paused; `[max(0., consistency_time - loop.time())]` while a version is awaited
+    -- (`is not None`: 0.0 counts; no suspension point since the sleep); else `[0.]` for a patch pending at the entry
+    let wait : Option Int :=
+      if it.required && !achieved && !it.paused
+      then (match deadline with
+            | some d => some (max 0 (d - clock'))
+            | none => if !it.patchInit then some 0 else none)
+      else none
+    { ps with slept := slept, decided := some achieved, clock := clock', left := clock', wait := wait }
   | .changing =>
     -- `if consistency_is_required and not consistency_is_achieved: return` precedes it
     if it.required && ps.decided == some true then { ps with entered := some ps.clock } else ps
@@ -178,6 +207,8 @@ structure Outcome where
   slept : Option Slept          -- the barrier sleep, if it was entered
   achieved : Bool               -- final `consistency_is_achieved`
   held : Bool                   -- the early return was taken
+  left : Int                   -- `loop.time()` when the consistency block was left (= when the early return was taken)
+  wait : Option Int            -- … and the waiting delay it reported: "come back when the waiting time is over"
   entered : Option Int         -- `process_changing_cause` was entered (at this time)
   handlers : Option Int        -- … with a cause whose handlers can run (GONE has none: C05)
   deriving DecidableEq, Repr
@@ -185,7 +216,7 @@ structure Outcome where
 def outcomeOf (deadline : Option Int) (it : Iter) (ps : PS) : Outcome :=
   let achieved := ps.decided == some true
   { given := deadline, low := ps.low, slept := ps.slept, achieved := achieved,
-    held := it.required && !achieved, entered := ps.entered,
+    held := it.required && !achieved, left := ps.left, wait := ps.wait, entered := ps.entered,
     handlers := if it.gone then none else ps.entered }
 
 /-- A processor that runs the stages in the given order. -/
